@@ -184,5 +184,7 @@ func principalKeyFromAuth(auth *AuthContext) string {
 	if auth == nil || !auth.Authenticated {
 		return "\x00anonymous"
 	}
-	return auth.Domain + "\x00" + auth.Principal
+	// Leading 0x01 mirrors tokenAad's authenticated branch, so an
+	// authenticated ("", "anonymous") never shares the anonymous partition.
+	return "\x01" + auth.Domain + "\x00" + auth.Principal
 }
